@@ -340,6 +340,7 @@ pub fn property() -> Property {
             "numbers print in Rust's shortest round-trip decimal form ({}), as the interpreter documents by its own tests",
             "^ is f64::powf on both sides (IEEE-754 does not define pow; the statement's 'IEEE double arithmetic' is read as the platform powf)",
         ],
+        fuzz: None,
         families,
         prelude: None,
         epilogue: None,
